@@ -223,9 +223,11 @@ class VarBytesColumn(Column):
 
         def finish(self, doccount):
             dbfile = self._dbfile
+            # Fill first: filling can grow the arrays into a wider type, which
+            # replaces the underlying array objects
+            self.fill(doccount)
             lengths = self._lengths.array
             offsets = self._offsets.array
-            self.fill(doccount)
 
             dbfile.write_array(lengths)
 
